@@ -556,9 +556,8 @@ def run_bulk_expire(pid, job, acc):
                 extra = list((got - exp).items())[:3]
                 problems.append(("C15" if not blur else "C16", "usage records of many mailboxes expired in one sweep differ from the facts (app, started, result)",
                                  {"expected_not_found": miss, "found_not_expected": extra, "blur": blur}))
-        for i in sorted(set([0, 1, 498, 499, 500, 501, 519, job["n"] - 1] + list(range(2, job["n"], 37)))):
-            if i >= job["n"]:
-                continue
+        # every id gets its second life (what the sweep left behind decides nothing here: the clients do)
+        for i in range(job["n"]):
             app = "app" if i % 40 else "app2"
             seen = []
             for side in ("s3", "s4"):
